@@ -188,6 +188,23 @@ type survResult struct {
 	Err        string   `json:"err"`
 }
 
+// toLatin / fromLatin carry arbitrary bytes through JSON as the characters U+0000..U+00FF.
+func toLatin(s string) string {
+	r := make([]rune, len(s))
+	for i := 0; i < len(s); i++ {
+		r[i] = rune(s[i])
+	}
+	return string(r)
+}
+
+func fromLatin(s string) string {
+	b := make([]byte, 0, len(s))
+	for _, r := range s {
+		b = append(b, byte(r))
+	}
+	return string(b)
+}
+
 // RunSurviveChild: send probe lines, each followed by a marker, through a real
 // connection; every marker must be dispatched, in order.
 func RunSurviveChild(args []string) int {
@@ -203,6 +220,9 @@ func RunSurviveChild(args []string) int {
 	var job survJob
 	if json.Unmarshal(b, &job) != nil {
 		return 2
+	}
+	for i, l := range job.Lines {
+		job.Lines[i] = fromLatin(l) // bytes travel through JSON as U+0000..U+00FF
 	}
 	j := sess.OpenJournal(*journal)
 	client.VerifHook = func(ev string, c *client.Conn, a ...interface{}) {
@@ -295,7 +315,11 @@ func surviveChild(lines []string, tracking bool, seed int64) (res survResult, cr
 		if e != nil {
 			return res, crashes, e
 		}
-		job, _ := json.Marshal(survJob{Lines: lines, Tracking: tracking, Seed: seed})
+		enc := make([]string, len(lines))
+		for i, l := range lines {
+			enc[i] = toLatin(l)
+		}
+		job, _ := json.Marshal(survJob{Lines: enc, Tracking: tracking, Seed: seed})
 		os.WriteFile(dir+"/job.json", job, 0o644)
 		cmd := exec.Command(os.Args[0], "irc-survive", "-job", dir+"/job.json", "-out", dir+"/out.json", "-journal", dir+"/journal.txt")
 		out, runErr, hung := runChild(cmd, 120*time.Second)
